@@ -61,6 +61,13 @@ int main(int argc, char** argv) {
     else if (hc_is(0, "printat")) { long long pos = hc_int(2); char* a = arg(3); volatile long long r = 0; HC_TRY(r = print_to(s, (int)pos, "%s", $S(a))); emit("printat", o, 0, pos, a, hc_exc, r); }
     else if (hc_is(0, "assigno")) { int p = (int)hc_int(2); HC_TRY(assign(s, objs_[p])); emit("assigno", o, p, 0, "", hc_exc, 0); }
     else if (hc_is(0, "concato")) { int p = (int)hc_int(2); HC_TRY(concat(s, objs_[p])); emit("concato", o, p, 0, "", hc_exc, 0); }
+    /* the argument is another String object - possibly the target itself (remo / memo / appendo with p == o) */
+    else if (hc_is(0, "appendo")) { int p = (int)hc_int(2); HC_TRY(append(s, objs_[p])); emit("concato", o, p, 0, "", hc_exc, 0); }
+    else if (hc_is(0, "remo")) { int p = (int)hc_int(2); HC_TRY(rem(s, objs_[p])); emit("remo", o, p, 0, "", hc_exc, 0); }
+    else if (hc_is(0, "memo")) { int p = (int)hc_int(2); volatile long long r = 0; HC_TRY(r = mem(s, objs_[p]) ? 1 : 0); emit("memo", o, p, 0, "", hc_exc, r); }
+    /* the argument is a stack String that wraps a pointer INTO the target's own characters (its tail from offset n) */
+    else if (hc_is(0, "concatin")) { long long n = hc_int(2); size_t L = strlen(c_str(s)); if ((size_t)n > L) n = (long long)L; HC_TRY(concat(s, $S(c_str(s) + n))); emit("concatin", o, 0, n, "", hc_exc, 0); }
+    else if (hc_is(0, "assignin")) { long long n = hc_int(2); size_t L = strlen(c_str(s)); if ((size_t)n > L) n = (long long)L; HC_TRY(assign(s, $S(c_str(s) + n))); emit("assignin", o, 0, n, "", hc_exc, 0); }
     else if (hc_is(0, "cmp")) { int p = (int)hc_int(2); volatile long long r = 0, q = 0; HC_TRY(r = cmp(s, objs_[p]); q = eq(s, objs_[p]) ? 1 : 0);
       emit("cmp", o, p, q, "", hc_exc, r < 0 ? -1 : r > 0 ? 1 : 0); }
     else if (hc_is(0, "del")) { drop_(o); emit("del", o, 0, 0, "", "", 0); }
